@@ -289,6 +289,10 @@ func (c *Check) SuccessSites(fn *ssa.Function, idx int, success string) []RetSit
 // Gate records the obligation "target is gated by any-of pats".
 func (c *Check) Gate(fa *FuncAnalysis, target ssa.Instruction, construct, desc string, pats ...LitPat) bool {
 	ok, path := fa.Gated(target, pats...)
+	if ok && !fa.Reachable(target) {
+		// a gate that can never be passed (constant-false condition) is not the property holding: the guarded behaviour is gone
+		return c.Req(false, c.p.Name(fa.Fn), c.p.InstrPos(target), construct, desc, "the gated statement is unreachable (its guard is constantly false)")
+	}
 	return c.Req(ok, c.p.Name(fa.Fn), c.p.InstrPos(target), construct, desc, "ungated path: "+fa.PathString(path))
 }
 
